@@ -67,9 +67,7 @@ impl BitOrAssign for BoxedUint {
 
 impl BitOrAssign<&BoxedUint> for BoxedUint {
     fn bitor_assign(&mut self, other: &Self) {
-        for (a, b) in self.limbs.iter_mut().zip(other.limbs.iter()) {
-            *a |= *b;
-        }
+        *self = Self::bitor(self, other);
     }
 }
 
